@@ -156,18 +156,9 @@ func (c *Ctx) operandCount(ia *interpAnchors, op string, f *ssa.Function) {
 		if !ok {
 			break
 		}
-		m, ok := asCmp(cond{ifi.Cond, true, b})
-		if ok && lenOfField(m.x, ia.T, "Stack") {
-			if kk, isC := constInt(m.y); isC {
-				switch m.op {
-				case token.LSS:
-					k = kk
-				case token.LEQ:
-					k = kk + 1
-				}
-				errName = c.blockReturnsErr(b.Succs[0])
-			}
-			break
+		if kk, succ, ok := underflowGuard(ifi, func(v ssa.Value) bool { return lenOfField(v, ia.T, "Stack") }); ok {
+			k = kk
+			errName = c.blockReturnsErr(b.Succs[succ])
 		}
 		break
 	}
